@@ -63,7 +63,7 @@ def generate(seed, batch):
             'clustered': rng.random() < 0.3, 'chain': rng.random() < 0.12, 'mass': rng.choice(['spd', 'spd', 'diag', 'identity']),
             'mseed': rng.getrandbits(40), 'w_min': 10 ** rng.uniform(-2, 3),
             'mass_mag': rng.choice([1.0, 1.0, 10 ** rng.uniform(-15, 3)]),
-            'mass_spread': rng.choice([0, 0, 0, 0, rng.uniform(2.0, 8.0), rng.uniform(8.0, 14.0)]),
+            'mass_spread': rng.choice([0, 0, 0, 0, rng.uniform(2.0, 8.0), rng.uniform(7.5, 9.5)]),
         }
         scen['k'] = rng.choice([1, 2, 3, 5, 10, 25, rng.randint(1, 25)])
         if batch == 'FI':
@@ -407,6 +407,13 @@ def execute(scen):
         n = Kd.shape[0]
         Ka = Kd[np.ix_(active, active)]
         Ma = Md[np.ix_(active, active)]
+        if scen['src'] == 'random' and not (eig.is_pd(Ka) and eig.is_pd(Ma)):
+            # generated pairs with masses spread over many decades can be numerically indefinite: outside the property's
+            # precondition (and the dense reference would be meaningless)
+            bump(res['probes'], 'precondition_not_met(generated K or M not PD to 1e-10)')
+            res['digest'] = log.digest()
+            res['signature'] = 'skip'
+            return res
         w2, V_ref = eigh(Ka, Ma)
         w_ref = np.sqrt(np.maximum(w2, 0.0))
         # modal mass of each reference mode for a unit-length mode vector (sharpens the perturbation bound mode by mode)
